@@ -70,7 +70,7 @@ def menu_entry(k):
         m["wt"] = ["restricted", "unrestricted"][(k // 4) % 2]
         m["nelec"] = r.choice([[1, 1], [2, 2]]) if m["wt"] == "restricted" else r.choice([[1, 1], [2, 1], [2, 2]])
         m.update(n_walkers=r.choice([4, 6]), dt=r.choice([0.005, 0.01, 0.02]), n_prop_steps=r.choice([1, 2, 3]), n_ene_blocks=r.choice([1, 2]), n_sr_blocks=r.choice([1, 2]),
-                 n_blocks=r.choice([2, 3]), R=r.choice([1, 2, 3]), n_eql=1, n_ene_blocks_eql=1, n_sr_blocks_eql=1, ad_mode=None)
+                 n_blocks=r.choice([3, 4]), R=r.choice([1, 2, 3]), n_eql=1, n_ene_blocks_eql=1, n_sr_blocks_eql=1, ad_mode=None)
     return m
 
 
@@ -97,6 +97,9 @@ def gen_cfg(seed, index, tier):
     # spin-dependent one-body term (e.g. a Zeeman / pinning field): only with unrestricted walkers
     # (restricted entry points see the spin average) and not on the pyscf route (spin-free solver)
     m["spin_dep"] = m["wt"] == "unrestricted" and m["route"] != "pyscf" and rng.random() < 0.4
+    # total energies of real molecules are far larger than the large-deviation bound sqrt(2/dt): a constant
+    # offset of the Hamiltonian brings the exact eigenvalue into that regime
+    m["h0_offset"] = rng.choice([0.0, 0.0, -60.0, 45.0])
     if m["kind"] == "driver":
         faults = []
         if rng.random() < 0.4:
@@ -136,6 +139,8 @@ def build_problem(cfg):
     rs = np.random.RandomState(cfg["ham_seed"] % (2**32 - 1))
     norb, nelec = cfg["norb"], tuple(cfg["nelec"])
     ham_data = lab.gen_hamiltonian(rs, norb, cfg["nchol"], strength=cfg["strength"], spin_dep=cfg.get("spin_dep", False))
+    if cfg.get("h0_offset"):
+        ham_data["h0"] = ham_data["h0"] + cfg["h0_offset"]
     sec = fock.Sector(norb, nelec)
     H = sec.hamiltonian(float(ham_data["h0"]), np.asarray(ham_data["h1"]), np.asarray(ham_data["chol"]))
     w, v = np.linalg.eigh(H)
